@@ -540,7 +540,11 @@ func (d Driver) Run(c *core.Ctx) error {
 		profs = []string{"lines", "curves", "arcs", "joins"}
 	}
 	for _, prof := range profs {
-		res := c.TLC(tlc.Opts{Module: "Builder", Config: genCfg(mcDepth, 0, prof, true), Coverage: c.Thorough() && prof == "joins"}, true)
+		d := mcDepth
+		if prof == "arcs" {
+			d = 3 // 555 000 states at depth 4, each with the judge as invariant
+		}
+		res := c.TLC(tlc.Opts{Module: "Builder", Config: genCfg(d, 0, prof, true), Coverage: c.Thorough() && prof == "joins", Timeout: 40 * time.Minute}, true)
 		for _, l := range res.Lines {
 			var h Line
 			if json.Unmarshal(l, &h) == nil && h.Hdr && len(h.NewPath) > 0 {
